@@ -3,24 +3,26 @@
 #        (suite unchanged, demo fails with / passes without), copies it to seeded/<id>/ and runs the named quick checks against it.
 set -u
 ID="$1"; CHECKS="${2:-$1}"
-WT=/tmp/seed_$ID
-OUT=/verif/seeded/$ID
+R="${SEED_ROUND:-}"                      # SEED_ROUND=2 -> worktree /tmp/seed2_<id>, kept under seeded/<id>/r2/
+WT=/tmp/seed${R}_$ID
+OUT=/verif/seeded/$ID${R:+/r$R}
+TAG=$ID${R:+_r$R}
 [ -f "$WT/_seed/patch.diff" ] || { echo "no patch in $WT/_seed"; exit 3; }
 mkdir -p "$OUT"
 cd "$WT"; export PYTHONPATH="$WT"
 # normalise the worktree to exactly the delivered patch (git stash is shared between worktrees: never use it here)
 git checkout -q -- pedal
 git apply --whitespace=nowarn _seed/patch.diff || { echo "delivered patch does not apply"; exit 3; }
-git diff -- pedal > /var/tmp/seed_actual_$ID.diff
+git diff -- pedal > /var/tmp/seed_actual_$TAG.diff
 SUITE_WITH=$(/venv/bin/python -m pytest -q -p no:cacheprovider 2>&1 | tail -1)
-/venv/bin/python _seed/demo.py > /var/tmp/seed_demo_with_$ID.txt 2>&1; RC_WITH=$?
-git apply -R --whitespace=nowarn /var/tmp/seed_actual_$ID.diff
-/venv/bin/python _seed/demo.py > /var/tmp/seed_demo_without_$ID.txt 2>&1; RC_WITHOUT=$?
-git apply --whitespace=nowarn /var/tmp/seed_actual_$ID.diff
+/venv/bin/python _seed/demo.py > /var/tmp/seed_demo_with_$TAG.txt 2>&1; RC_WITH=$?
+git apply -R --whitespace=nowarn /var/tmp/seed_actual_$TAG.diff
+/venv/bin/python _seed/demo.py > /var/tmp/seed_demo_without_$TAG.txt 2>&1; RC_WITHOUT=$?
+git apply --whitespace=nowarn /var/tmp/seed_actual_$TAG.diff
 echo "suite with change: $SUITE_WITH"
-echo "demo with change: exit $RC_WITH ($(tail -1 /var/tmp/seed_demo_with_$ID.txt | cut -c1-120))"
-echo "demo without change: exit $RC_WITHOUT ($(tail -1 /var/tmp/seed_demo_without_$ID.txt | cut -c1-120))"
-cp /var/tmp/seed_actual_$ID.diff "$OUT/patch.diff"
+echo "demo with change: exit $RC_WITH ($(tail -1 /var/tmp/seed_demo_with_$TAG.txt | cut -c1-120))"
+echo "demo without change: exit $RC_WITHOUT ($(tail -1 /var/tmp/seed_demo_without_$TAG.txt | cut -c1-120))"
+cp /var/tmp/seed_actual_$TAG.diff "$OUT/patch.diff"
 cp _seed/demo.py "$OUT/demo.py"
 cp _seed/notes.md "$OUT/notes.md" 2>/dev/null
 cd /verif; unset PYTHONPATH
@@ -31,22 +33,22 @@ for C in $CHECKS; do
   RESULTS="$RESULTS$LINE
 "
 done
-python3 - "$ID" "$SUITE_WITH" "$RC_WITH" "$RC_WITHOUT" "$CHECKS" <<PYEOF
+python3 - "$ID" "$SUITE_WITH" "$RC_WITH" "$RC_WITHOUT" "$CHECKS" "$WT" "$OUT" <<PYEOF
 import json, sys, re
-pid, suite, rc_with, rc_without, checks = sys.argv[1:6]
+pid, suite, rc_with, rc_without, checks, wt, out = sys.argv[1:8]
 results = """$RESULTS"""
 caught = re.findall(r'check=(C\d+) exit=1', results)
 missed = re.findall(r'check=(C\d+) exit=0', results)
 meta = {'property': pid, 'written_by': 'independent sub-agent given only the property text and a scratch worktree',
         'confirmed': {'suite_with_change': suite, 'demo_exit_with_change': int(rc_with), 'demo_exit_without_change': int(rc_without),
                       'ok': ('493 passed' in suite and '10 failed' in suite and int(rc_with) != 0 and int(rc_without) == 0)},
-        'ran': ['cd /tmp/seed_%s && /venv/bin/python -m pytest -q -p no:cacheprovider' % pid, '/venv/bin/python _seed/demo.py (with / without the change)',
-                'tools/mutate.sh <check> seeded/%s/patch.diff for checks: %s' % (pid, checks)],
+        'ran': ['cd %s && /venv/bin/python -m pytest -q -p no:cacheprovider' % wt, '/venv/bin/python _seed/demo.py (with / without the change)',
+                'tools/mutate.sh <check> %s/patch.diff for checks: %s' % (out[len('/verif/'):], checks)],
         'caught_by': caught, 'missed_by': missed}
 try:
-    meta['needs_to_manifest'] = open('/verif/seeded/%s/notes.md' % pid).read()[:1500]
+    meta['needs_to_manifest'] = open(out + '/notes.md').read()[:1500]
 except Exception:
     pass
-json.dump(meta, open('/verif/seeded/%s/meta.json' % pid, 'w'), indent=1)
+json.dump(meta, open(out + '/meta.json', 'w'), indent=1)
 print('confirmed' if meta['confirmed']['ok'] else 'NOT CONFIRMED', 'caught_by', caught, 'missed_by', missed)
 PYEOF
